@@ -172,7 +172,7 @@ impl TypedScenario for C18Req {
     }
     fn budget(&self, tier: Tier) -> usize {
         match tier {
-            Tier::Quick => req_sweep_len() + 1000,
+            Tier::Quick => req_sweep_len() + 4000,
             Tier::Thorough => req_sweep_len() + 500_000,
         }
     }
@@ -343,7 +343,7 @@ impl TypedScenario for C18Status {
     }
     fn budget(&self, tier: Tier) -> usize {
         status_sweep(tier) + match tier {
-            Tier::Quick => 500,
+            Tier::Quick => 2000,
             Tier::Thorough => 250_000,
         }
     }
@@ -478,7 +478,7 @@ impl TypedScenario for C18Hdr {
     }
     fn budget(&self, tier: Tier) -> usize {
         match tier {
-            Tier::Quick => RESERVED.len() + NEAR.len() + CASEVAR.len() + 150,
+            Tier::Quick => RESERVED.len() + NEAR.len() + CASEVAR.len() + 800,
             Tier::Thorough => RESERVED.len() + NEAR.len() + CASEVAR.len() + 50_000,
         }
     }
